@@ -19,7 +19,8 @@ RULE = ("molecules (non-aromatic, and kekulizable monocyclic aromatic rings of s
         "non-trivial = some atom at capacity -1, 0 or +1 in some step; distinct = distinct (SMILES, table sequence)")
 ASSUMPTIONS = ["usage is computed from the generator's ground truth (R3), capacity by R5",
                "aromatic atoms of kind c / n need exactly one pi bond, o / s / [nH] / [se] / substituted n none (monocyclic rings "
-               "that are kekulizable by construction)"]
+               "that are kekulizable by construction)",
+               "for arbitrary (also unparseable / unkekulizable) text only 'the strict=False outcome is the same under every table' is asserted"]
 SELFTESTS = [refsmiles.selftest, GM.selftest]
 
 NEEDS_PI = {"c": 1, "n": 1, "o": 0, "s": 0, "[nH]": 0, "[se]": 0, "n(R)": 0}
@@ -41,7 +42,36 @@ def usages(truth):
     return out
 
 
+def evaluate_outcome_only(case):
+    """arbitrary SMILES-like text (also unparseable / unkekulizable): with strict=False the outcome - the returned
+    string or EncoderError - must not depend on the table in force; a strict result, where there is one, equals it"""
+    smi = case["smiles"]
+    outcomes = []
+    stricts = []
+    for step in case["steps"]:
+        O.forget_table()
+        if O.use_table(step) is None:
+            return Result(skipped="table not accepted by the library")
+        r = O.encode(smi, strict=False)
+        if r[0] == "exc":
+            return Result(Fail("nonstrict:" + r[1], smiles=smi[:300], error=r[2]))
+        outcomes.append(r if r[0] == "ok" else ("err",))
+        rs = O.encode(smi, strict=True)
+        if rs[0] == "ok":
+            stricts.append(rs[1])
+    fail = None
+    if len(set(outcomes)) > 1:
+        fail = Fail("nonstrict:outcome_depends_on_table", smiles=smi[:300], outcomes=[str(o)[:120] for o in sorted(set(outcomes))[:2]],
+                    tables=[(t if isinstance(t, str) else _short(t)) for t in case["steps"]][:3])
+    elif stricts and (outcomes[0][0] != "ok" or any(x != outcomes[0][1] for x in stricts)):
+        fail = Fail("strict_result_differs_from_nonstrict", smiles=smi[:300], strict=stricts[0][:200], nonstrict=str(outcomes[0])[:200])
+    cl = ["outcome_only", "accepted" if outcomes[0][0] == "ok" else "rejected_under_every_table"]
+    return Result(fail, outcomes[0][0] == "ok", cl, sample=dict(smiles=smi[:160], steps=len(case["steps"])))
+
+
 def evaluate(case):
+    if case.get("kind") == "outcome_only":
+        return evaluate_outcome_only(case)
     truth = case["truth"]
     smi = case["smiles"]
     us = usages(truth)
@@ -156,5 +186,30 @@ def gen_case(ch):
     return dict(smiles=w["smiles"], truth=truth, steps=steps, mutate_passed=[ch.weighted([(6, 0), (1, 1), (1, 2)]) for _ in steps])
 
 
+EXOTIC = ["c1cccc:[GeH]:1", "c1cc:[GeH]:[GeH]:c1", "c1ccc:[SnH2]:1", "C:[Ge]:C", "[SbH]1:c:c:c:c:1", "c1cc[bi]c1", "[GeH]1:C:C:C:C:1",
+          "C1=C[GeH]=CC=C1", "[SiH4]", "[CH5]", "C[OH3]C", "[FH2]", "[NH5]", "[SnH6]", "C[IH2]", "[Fe]:1:C:C:1", "c1ccccc1[PbH5]", "[te]1cccc1",
+          "c1cc[siH]cc1", "[alH]1cccc1"]
+
+
+def gen_outcome_only(ch):
+    from vf import gen_text as GT
+    w = ch.weighted([(4, "exotic"), (4, "text"), (2, "exotic_mutated")])
+    if w == "exotic":
+        smi = ch.pick(EXOTIC)
+    elif w == "text":
+        smi = GT.gen_smiles_text(ch)
+    else:
+        smi = GT.mutate_text(ch, ch.pick(EXOTIC))
+    steps = []
+    for _ in range(ch.int(2, 4)):
+        t = T.gen_valid_table(ch)
+        if not isinstance(t, str) and ch.bool(60):
+            t[ch.pick(["Ge", "Sn", "Sb", "Bi", "Si", "Pb", "Te", "C", "N", "O", "F", "I"])] = ch.int(0, 6)
+            t["?"] = ch.int(0, 8)
+        steps.append(t)
+    return dict(kind="outcome_only", smiles=smi[:400], steps=steps)
+
+
 def shard(ctx):
     ctx.drive("main", gen_case, ctx.n(2500, 40000), max_bytes=800)
+    ctx.drive("outcome_only", gen_outcome_only, ctx.n(800, 12000), max_bytes=500)
